@@ -1014,6 +1014,12 @@ func c01Calls(p *core.Program, r *core.Report, e *engines) {
 				if ev.Kind == "push" && ev.Expr != nil && isNilIdent(info, ev.Expr) {
 					pushesNil = true
 				}
+				// a result variable of interface type still holding its zero value on this path
+				if ev.Kind == "push" && ev.Val != nil && ev.Val.Kind == "zero" && ev.Expr != nil {
+					if t := info.TypeOf(ev.Expr); t != nil && types.IsInterface(t) {
+						pushesNil = true
+					}
+				}
 			}
 			if n > 1 || (n == 0 && !pushesNil) {
 				bad = fmt.Sprintf("a completing path invokes the callee %d times", n)
